@@ -31,7 +31,7 @@ pub fn session(rng: &mut Rng, out: &mut Out, with_rollback: bool, prop: &str, sc
     let (g, ws, eos, script_ops) = match script {
         Some(p) => (p.gram, p.ws, p.eos, p.ops),
         None => {
-            let g = gen_gram(rng);
+            let g = if rng.chance(1, 8) { gen_diamond_gram(rng) } else { gen_gram(rng) };
             let (ws, eos) = if rng.chance(1, 6) { single_byte_vocab() } else { gen_engine_vocab(rng, 30) };
             (g, ws, eos, vec![])
         }
@@ -51,10 +51,13 @@ pub fn session(rng: &mut Rng, out: &mut Out, with_rollback: bool, prop: &str, sc
     let mut n_rollbacks = 0;
     let mut limit_hit = false;
     let nsteps = if scripted { script_ops.len() } else { rng.range(6, 22) };
+    // operations planned ahead: after a rollback, a commit that is NOT preceded by any query on this
+    // engine (the token is chosen on a private engine), followed by a forced-bytes query
+    let mut planned: std::collections::VecDeque<Op> = std::collections::VecDeque::new();
     let res = catch_unwind(AssertUnwindSafe(|| {
         for step in 0..nsteps {
             let k = rng.below(if with_rollback { 12 } else { 9 });
-            let op = if scripted { script_ops[step].clone() } else { match k {
+            let op = if scripted { script_ops[step].clone() } else if let Some(o) = planned.pop_front() { o } else { match k {
                 0 | 1 | 2 => Op::Mask,
                 3 | 4 => {
                     let t = match (&last_mask, rng.chance(9, 10)) {
@@ -110,6 +113,16 @@ pub fn session(rng: &mut Rng, out: &mut Out, with_rollback: bool, prop: &str, sc
                 Op::Commit(t) => {
                     if ok {
                         hist.push(*t);
+                        // every observable (mask, accepting, forced bytes, stop) equals that of an engine
+                        // that saw only the surviving tokens
+                        if n_rollbacks > 0 && !m.is_stopped() {
+                            if let Some(mut f) = fresh_replay(&env, &lark, &hist) {
+                                let (a, b) = (observe(&mut m.deep_clone()), observe(&mut f));
+                                if a != b && a != "resource-limit" && b != "resource-limit" {
+                                    viol.push(format!("after rollbacks and the commits {:?}: {} but an engine that saw only these tokens: {}", hist, a, b));
+                                }
+                            }
+                        }
                     }
                     last_mask = None;
                 }
@@ -123,6 +136,14 @@ pub fn session(rng: &mut Rng, out: &mut Out, with_rollback: bool, prop: &str, sc
                             let (a, b) = (observe(&mut m.deep_clone()), observe(&mut f));
                             if a != b && a != "resource-limit" && b != "resource-limit" {
                                 viol.push(format!("after rollback({n}) to {:?}: {} but an engine that never saw the tokens: {}", hist, a, b));
+                            }
+                            if !scripted && rng.chance(2, 3) && !f.is_stopped() {
+                                if let Ok(fm) = f.compute_mask() {
+                                    if let Some(t) = pick_token(rng, &mask_list(&fm), &ws, eos) {
+                                        planned.push_back(Op::Commit(t));
+                                        planned.push_back(if rng.chance(1, 2) { Op::FfBytes } else { Op::Mask });
+                                    }
+                                }
                             }
                         }
                     }
@@ -196,6 +217,7 @@ pub fn run(rng: &mut Rng, out: &mut Out, tier: &str, with_rollback: bool, prop: 
         if std::env::var("LLGVERIF_TRACE").is_ok() {
             eprintln!("case {i}");
         }
-        session(&mut r, out, with_rollback, prop, None);
+        // a third of the C11 sessions also roll back: stale caches after a rollback are cache defects too
+        session(&mut r, out, with_rollback || i % 3 == 2, prop, None);
     }
 }
